@@ -258,6 +258,11 @@ def mqtt_cases(rng, n_random=16):
         # the buffered count drops 1 -> 0 and the next expiry computes 0 - 1, saturating since 4dba145
         out.append(mq(kind, 4, 5, [(0, 20), (1, 26), (3, 27)], rr=(1, 0, 0)))
         out.append(mq(kind, 4, 5, [(0, 20), (1, 26)], rr=(1, 0, 0)))
+    for kind in (3, 5):
+        # keep-alive near the u16 boundary of the 1.5 x factor (43690 * 1.5 = 65535): the connection must stay up
+        out.append(mq(kind, 43691, 5, [(0, 20)]))
+        out.append(mq(kind, 43692, 5, [(0, 20)]))
+        out.append(mq(kind, 65535, 5, [(0, 20)]))
     for kind in (13, 15):
         out.append(mq(kind, 2, 5, [(0, 30)]))
         out.append(mq(kind, 1, 5, [(0, 30)]))
